@@ -33,6 +33,7 @@ type Frame struct {
 	mode    int
 	isDefer bool // frame was started as a deferred call
 	shared  bool
+	synthetic bool // straight-line slice of an init function; falling off the end returns
 	// callback invoked (engine-internal) when the frame returns instead of assigning retTo
 	onRet func(st *State, v Value)
 }
